@@ -1,7 +1,8 @@
 """Sidecar contracts for reuse.copyright and the year/notice plumbing of the annotate command (C20)."""
 from pyvc.api import contract, spec, lemma, implies, forall, exists, ufun, in_lang, LoopSpec
 
-current_year = ufun("current_year", [], "int")
+import datetime
+current_year = ufun("current_year", [], "int", native=lambda: datetime.date.today().year)
 
 
 # "a statement that already is a notice": it contains a copyright tag followed by white space.  Written from the
